@@ -973,8 +973,19 @@ func (a *act) localVar(name string, header *ssa.BasicBlock, st *State) (Val, boo
 			}
 		}
 	}
-	// a variable that lives in a heap cell (captured by a closure, or address taken): its current content
+	// a local variable that lives in a heap cell (captured by a closure, or address taken): its current content.
+	// Not for parameters (their cell is a copy made after entry, and old(...) must see the parameter itself) and not
+	// in the entry state (the cell does not exist yet).
+	isParam := false
+	for _, p := range a.fn.Params {
+		if p.Name() == name {
+			isParam = true
+		}
+	}
 	for _, b := range a.fn.Blocks {
+		if isParam || st == a.fx.entry {
+			break
+		}
 		for _, in := range b.Instrs {
 			if al, ok := in.(*ssa.Alloc); ok && al.Comment == name {
 				if pv, computed := a.vals[al]; computed {
